@@ -47,7 +47,7 @@ def py_greedy(words, w):
 
 
 def gen_case(rng, i, tier):
-    w = rng.choice([1, 2, 3, 4, 5, 7, 8, 10, 11, 13, 17, 20, 30, 40]) if rng.random() < 0.8 else rng.randint(1, 60)
+    w = rng.choice([1, 2, 3, 4, 5, 7, 8, 10, 11, 13, 17, 20, 30, 40]) if rng.random() < 0.8 else rng.choice([rng.randint(1, 60), rng.randint(61, 200)])
     alpha = rng.choice(ALPHABETS)
     n = rng.randint(1, 12 if tier == "quick" else 40)
     words = []
@@ -66,7 +66,7 @@ def gen_case(rng, i, tier):
     if rng.random() < 0.15:
         words = words[: rng.randint(1, 3)]
     indent = rng.choice(["", " ", "  ", "\t", " \t"])
-    depth = rng.randint(0, 3)
+    depth = rng.randint(0, 3) if rng.random() < 0.9 else rng.randint(4, 8)
     chained = rng.random() < 0.25
     return {"w": w, "words": words, "indent": indent, "depth": depth, "chained": chained}
 
